@@ -342,13 +342,13 @@ type Failure struct {
 }
 
 type Explorer struct {
-	Bound   int
-	Budget  time.Duration
-	MaxExec int64
-	start   time.Time
-	res     *Result
-	sc      *Scenario
-	capHit  bool
+	Bound       int
+	Budget      time.Duration
+	MaxExec     int64
+	start       time.Time
+	res         *Result
+	sc          *Scenario
+	capHit      bool
 	stopOnFirst bool
 }
 
